@@ -45,7 +45,7 @@ HEAVY = {"tb", "legacy_scen", "legacy_nores"}
 def budget(tier):
     if tier == "thorough":
         return {"runs": 5000, "wall": 1500, "chunk": 2, "minimise_s": 150}
-    return {"runs": 300, "wall": 170, "chunk": 2, "minimise_s": 50}
+    return {"runs": 600, "wall": 300, "chunk": 2, "minimise_s": 50}
 
 
 def prepare(tier):
